@@ -61,16 +61,37 @@ def describe(o):
         o["path"], o["variant"], o["passAll"], o["redirect"], o.get("tls"), o.get("order"), o["repoURL"], o["chartURL"], "; ".join(rs))
 
 
-def run_cases(d, hv, cases, seed, concs):
-    with open(os.path.join(d, "cases.ndjson"), "w") as f:
-        for c in cases:
-            f.write(json.dumps(c) + "\n")
-    rc, out, dt = vlib.sh([hv, "creds-run", "-cases", "cases.ndjson", "-out", "obs.ndjson", "-seed", str(seed), "-n", str(concs),
-                           "-tmp", os.path.join(d, "tmp")], cwd=d, timeout=1800)
-    obs = [json.loads(l) for l in open(os.path.join(d, "obs.ndjson")) if l.strip()]
-    if len(obs) != len(cases) * concs:
-        raise Inconclusive("harness replayed %d of %d cases" % (len(obs), len(cases) * concs))
-    return obs, dt
+def run_cases(d, hv, cases, seed, concs, shards=4):
+    """replay the cases; the capture of one hv_misc process is global, so the cases are replayed one after the other within a
+    process - several processes (each with its own capture server and proxy) share the work"""
+    import subprocess
+    shards = max(1, min(shards, len(cases)))
+    t0 = time.time()
+    procs = []
+    for k in range(shards):
+        part = cases[k::shards]
+        cf, of = os.path.join(d, "cases_%d.ndjson" % k), os.path.join(d, "obs_%d.ndjson" % k)
+        with open(cf, "w") as f:
+            for c in part:
+                f.write(json.dumps(c) + "\n")
+        procs.append((subprocess.Popen([hv, "creds-run", "-cases", cf, "-out", of, "-seed", str(seed), "-n", str(concs),
+                                        "-tmp", os.path.join(d, "tmp%d" % k)], cwd=d, stdout=subprocess.DEVNULL,
+                                       stderr=subprocess.PIPE, text=True), of, len(part)))
+    obs = []
+    for p, of, n in procs:
+        try:
+            _, err = p.communicate(timeout=1500)
+        except subprocess.TimeoutExpired:
+            p.kill()
+            raise Inconclusive("creds-run timed out")
+        if p.returncode != 0:
+            raise Inconclusive("creds-run failed (%d): %s" % (p.returncode, (err or "")[-2000:]))
+        got = [json.loads(l) for l in open(of) if l.strip()]
+        if len(got) != n * concs:
+            raise Inconclusive("harness replayed %d of %d cases" % (len(got), n * concs))
+        obs += got
+    obs.sort(key=lambda o: (o["conc"], o["id"]))
+    return obs, time.time() - t0
 
 
 def run(pid, tier, seed, replay=None):
